@@ -455,6 +455,8 @@ def run_C04(ctx, R):
     _per_config(ctx, R, outbuf.out8)
     _per_config(ctx, R, _inl(outbuf.tab2_print))
     _per_config(ctx, R, outbuf.prt1)
+    from .rules import parse
+    _per_config(ctx, R, _inl(parse.tab23))
 
 
 def run_C05(ctx, R):
@@ -483,6 +485,7 @@ def run_C02(ctx, R):
     _per_config(ctx, R, _inl(parse.c02_structure))
     _per_config(ctx, R, _inl(parse.tab21))
     _per_config(ctx, R, _inl(parse.tab22))
+    _per_config(ctx, R, _inl(parse.tab23))
     _per_config(ctx, R, _only_functions(lst.lst1, {'parse_array', 'parse_object'}, 'LST1', 2))
     _per_config(ctx, R, parse.tab1_depth_balance)
     from .rules import parse as _parse
